@@ -1,36 +1,38 @@
 import Exetera.Lemmas.GroupByCount
+import Exetera.Lemmas.GroupByCols
 /-!
-  C07 helper lemmas, part 7: the end-to-end statements about `groupbyAgg`, `groupbyCount`, `groupbyDistinct`.
+  C07 helper lemmas, part 7: the end-to-end statements about `groupbyAgg`, `groupbyCount`, `groupbyDistinct` on the tree with
+  fix D20 (`groupby .repaired` = `groupbyCols`): no hypothesis on the key columns' dtypes.
 -/
 namespace Exetera.GroupBy
 open Exetera Exetera.Spec Exetera.Spans Exetera.SortIndex List
 
 theorem groupbyAgg_spec (agg : Agg) (k0 : KeyCol) (ks : List KeyCol) (hint : Bool) (T : List Int) (n : Nat)
-    (hrect : Rect n ((k0 :: ks).map (·.data))) (hT : T.length = n) (hf : Faithful (k0 :: ks))
+    (hrect : Rect n ((k0 :: ks).map (·.data))) (hT : T.length = n)
     (hhint : hint = true → SortedRows ((k0 :: ks).map (·.data)) n) :
     ∃ kcols vals outKeys, groupbyAgg .repaired agg (k0 :: ks) hint [.plain T] = .ok ⟨kcols, [.ints vals]⟩ ∧
       ColumnsOf kcols outKeys ∧ IsGroupBy (rowsBy ((k0 :: ks).map (·.data)) n) T (aggSpec agg) outKeys vals := by
-  obtain ⟨idx, si, hperm, hs, hsi, hg⟩ := groupby_paths k0 ks hint n hrect hf hhint
+  obtain ⟨idx, si, hperm, hs, hsi, hg⟩ := groupbyCols_paths k0 ks hint n hrect hhint
   obtain ⟨kcols, r, hwk, hag, hcols, hvals⟩ := outputs_along agg ((k0 :: ks).map (·.data)) T n idx si hperm hsi hrect hT
   obtain ⟨hda, hsel⟩ := groups_along_index ((k0 :: ks).map (·.data)) T 0 n idx hperm hs hT
   refine ⟨kcols, r, _, ?_, hcols, hda, ?_⟩
-  · simp only [groupbyAgg, hg, hwk, aggTargets, hag, SortIndex.consE_ok]
+  · simp only [groupbyAgg, groupby, aggOf, hg, hwk, aggTargets, hag, SortIndex.consE_ok]
   · rw [hvals, hsel, map_map]; rfl
 
 theorem groupbyCount_spec (k0 : KeyCol) (ks : List KeyCol) (hint : Bool) (n : Nat)
-    (hrect : Rect n ((k0 :: ks).map (·.data))) (hf : Faithful (k0 :: ks))
+    (hrect : Rect n ((k0 :: ks).map (·.data)))
     (hhint : hint = true → SortedRows ((k0 :: ks).map (·.data)) n) :
     ∃ kcols counts outKeys, groupbyCount .repaired (k0 :: ks) hint = .ok ⟨kcols, [.ints counts]⟩ ∧
       ColumnsOf kcols outKeys ∧ IsGroupCount (rowsBy ((k0 :: ks).map (·.data)) n) outKeys counts ∧
       counts.sum = n := by
-  obtain ⟨idx, si, hperm, hs, hsi, hg⟩ := groupby_paths k0 ks hint n hrect hf hhint
+  obtain ⟨idx, si, hperm, hs, hsi, hg⟩ := groupbyCols_paths k0 ks hint n hrect hhint
   let T := List.replicate n (0 : Int)
   have hT : T.length = n := by simp [T]
   obtain ⟨kcols, r, hwk, _, hcols, _⟩ := outputs_along .first ((k0 :: ks).map (·.data)) T n idx si hperm hsi hrect hT
   obtain ⟨hda, hsel⟩ := groups_along_index ((k0 :: ks).map (·.data)) T 0 n idx hperm hs hT
   obtain ⟨c, hc, hceq, hsum⟩ := count_along ((k0 :: ks).map (·.data)) n idx hperm
   refine ⟨kcols, c, _, ?_, hcols, ⟨hda, ?_⟩, hsum⟩
-  · simp only [groupbyCount, hg, hwk, count, hc]
+  · simp only [groupbyCount, groupby, countOf, hg, hwk, count, hc]
   · rw [hceq, hsel, map_map]
     apply map_congr_left
     intro k _
@@ -38,15 +40,15 @@ theorem groupbyCount_spec (k0 : KeyCol) (ks : List KeyCol) (hint : Bool) (n : Na
     rw [select_length _ _ _ (by simp [T, rowsBy])]
 
 theorem groupbyDistinct_spec (k0 : KeyCol) (ks : List KeyCol) (hint : Bool) (n : Nat)
-    (hrect : Rect n ((k0 :: ks).map (·.data))) (hf : Faithful (k0 :: ks))
+    (hrect : Rect n ((k0 :: ks).map (·.data)))
     (hhint : hint = true → SortedRows ((k0 :: ks).map (·.data)) n) :
     ∃ kcols outKeys, groupbyDistinct .repaired (k0 :: ks) hint = .ok ⟨kcols, []⟩ ∧
       ColumnsOf kcols outKeys ∧ DistinctAscending (rowsBy ((k0 :: ks).map (·.data)) n) outKeys := by
-  obtain ⟨idx, si, hperm, hs, hsi, hg⟩ := groupby_paths k0 ks hint n hrect hf hhint
+  obtain ⟨idx, si, hperm, hs, hsi, hg⟩ := groupbyCols_paths k0 ks hint n hrect hhint
   let T := List.replicate n (0 : Int)
   have hT : T.length = n := by simp [T]
   obtain ⟨kcols, r, hwk, _, hcols, _⟩ := outputs_along .first ((k0 :: ks).map (·.data)) T n idx si hperm hsi hrect hT
   obtain ⟨hda, _⟩ := groups_along_index ((k0 :: ks).map (·.data)) T 0 n idx hperm hs hT
-  exact ⟨kcols, _, by simp only [groupbyDistinct, hg, hwk], hcols, hda⟩
+  exact ⟨kcols, _, by simp only [groupbyDistinct, groupby, distinctOf, hg, hwk], hcols, hda⟩
 
 end Exetera.GroupBy
